@@ -76,7 +76,7 @@ def gen_extra(rng, decls):
 
 
 def gen_conditions(rng, g, n=None):
-    names = ["C1", "C2", "IsProd", "é", "C5"]
+    names = ["C1", "C2", "IsProd", "é", "C5", "C6", "C7", "C8"]
     k = rng.randint(0, 4) if n is None else n
     chosen = rng.sample(names, k)
     conds = {}
@@ -85,6 +85,55 @@ def gen_conditions(rng, g, n=None):
     for c in chosen:
         conds[c] = g.b(rng.choice([0, 1, 1, 2]))
     return conds
+
+
+def gen_condition_template(rng, n):
+    """focus on the condition graph: n conditions referring to each other (DAGs, cycles, self loops, undeclared names),
+    operands of every scalar type, resources gated on them"""
+    tenv = TEnv(rng)
+    for p in PSEUDO_NAMES:
+        tenv.params[p] = "x"
+    g = ExprGen(rng, tenv)
+    decls = gen_parameters(rng, tenv) if rng.random() < 0.5 else {}
+    names = rng.sample(["C1", "C2", "IsProd", "é", "C5", "C6", "C7", "C8"], n)
+    for c in names:
+        tenv.conds[c] = True
+
+    def operand():
+        k = rng.random()
+        if k < 0.45:
+            return rng.choice(["a", "b", "prod", "true", "TRUE", "1", 1, True, False, 0, "", "x-y"])
+        if k < 0.75:
+            return {"Ref": rng.choice(list(decls) + PSEUDO_NAMES + ["Missing"])}
+        if k < 0.9:
+            return {"Fn::Sub": rng.choice(["${AWS::Region}", "x${!A}", "a", "${Missing}"])}
+        return {"Fn::Join": ["", [rng.choice(["a", "pro"]), rng.choice(["", "d"])]]}
+
+    def body(d):
+        k = rng.random()
+        if d <= 0 or k < 0.3:
+            return {"Fn::Equals": [operand(), operand()]}
+        if k < 0.6:
+            return {"Condition": rng.choice(names) if rng.random() < 0.88 else "Undeclared"}
+        if k < 0.72:
+            return {"Fn::Not": [body(d - 1)]}
+        if k < 0.86:
+            return {"Fn::And": [body(d - 1) for _ in range(rng.randint(1, 3))]}
+        return {"Fn::Or": [body(d - 1) for _ in range(rng.randint(1, 3))]}
+
+    conds = {c: body(rng.choice([1, 1, 2, 3])) for c in names}
+    resources = {}
+    for i in range(rng.randint(1, 3)):
+        r = gen_resource(rng, g, 1)
+        if rng.random() < 0.7:
+            r["Condition"] = g.cname()
+        resources[f"R{i + 1}"] = r
+    t = {"Resources": resources}
+    if decls:
+        t["Parameters"] = decls
+    if conds:
+        t["Conditions"] = conds
+    return {"template": t, "extra": gen_extra(rng, decls)}
 
 
 def statement(rng, g, d):
@@ -121,6 +170,7 @@ def opt(rng, g, v):
 
 def gen_resource(rng, g, d):
     k = rng.random()
+    g.str_only = k < 0.62
     if k < 0.3:
         props = {"PolicyName": g.s(d), "PolicyDocument": policy_document(rng, g, d)}
         if rng.random() < 0.5:
